@@ -22,6 +22,6 @@ PROP = Property(
     assumptions=["end-to-end half (engine chan13): ares_getaddrinfo / ares_gethostbyname / ares_gethostbyaddr are modelled ABOVE the query layer (coq/Legacy/Gai.v, for the code WITH fixes/C13-gai-family-restrict.patch); inputs from other layers: the outcome of every sub-query (accepted record or error status: C05/C12), the candidate names (C12; one round per name actually queried, read from the TX log), inet_pton, service->port, the tokenised hosts file",
                  "qsort is trusted: it leaves some permutation of the element array (Section hypothesis); the RFC 6724 comparator is not modelled (the property is about content, not order); node order is compared only under ARES_AI_NOSORT",
                  "get_address_index (sortlist matching, ares_subnet_match) is a parameter of the insertion-sort model; the driver feeds it the indices the implementation computed",
-                 "the wire parser is not modelled (record = what the public getters report / what the scripted rsp specs say); allocation always succeeds; the query cache is switched off (qcachettl=0) so TTLs are not aged; ARES_AI_ENVHOSTS, .onion names, service names from /etc/services and foreign-class records end-to-end are not generated"],
+                 "the wire parser is not modelled (record = what the public getters report / what the scripted rsp specs say); allocation always succeeds; cache cases (qcachettl>0) run without search domains and the driver predicts cache hits/aged TTLs with its own table; ARES_AI_ENVHOSTS, .onion names, service names from /etc/services are not generated"],
     rule="ai: pia (generated responses through ares_parse_into_addrinfo, then addrinfo2hostent x3, addrinfo2addrttl x10, ares_sortaddrinfo x3, ares_parse_ptr_reply_dnsrec), ptr, sort, lo cases. chan13: simulator histories of 1-3 sequential requests (gai/ghbn/ghba/gni) with lookups b|f|bf|fb, generated hosts files (mixed families per name, aliases, case variants, duplicates, comments, bad lines), search domains/ndots with failing earlier candidates, families 0/4/6, hint flags, numeric services, literals, localhost names, answers with CNAME chains / other-family records / duplicates / junk / 0-30 records / TTL mixes, one family answered and the other NODATA/NXDOMAIN/SERVFAIL/timeout, both arrival orders; non-trivial = at least one request completed; distinct by case text",
 )
